@@ -57,12 +57,18 @@ def cases(tier, seed):
         cs = dict(cmd_buffer_depth=4, with_refresh=False, with_auto_precharge=bool(k % 2))
         word_bytes = mem["databits"] * (1 if mem["memtype"] == "SDR" else mem.get("dfi_mult", 2)) * mem["nphases"] // 8
         align = {"SDR": {1: 0, 2: 1}[mem["nphases"]] if mem["memtype"] == "SDR" else None}.get("SDR")
-        bba = r.choice([0, 0, "row", "4rows", 0x10000, 0x1000])
+        bba = [0, "row", "bank/4", 0x10000, "bank/2", 0, "4rows", "bank", 0x1000, "bank/8"][(k // 3 + seed) % 10] if k % 3 else \
+            r.choice([0, 0, "row", "4rows", 0x10000, 0x1000])
+        from litedram.common import burst_lengths
+        bl = mem["nphases"] if mem["memtype"] == "SDR" else burst_lengths[mem["memtype"]]
+        row_bytes = (1 << mem["colbits"]) // bl * word_bytes
         if bba in ("row", "4rows"):
-            from litedram.common import burst_lengths
-            bl = mem["nphases"] if mem["memtype"] == "SDR" else burst_lengths[mem["memtype"]]
-            row_bytes = (1 << mem["colbits"]) // bl * word_bytes
             bba = row_bytes * (4 if bba == "4rows" else 1)
+        elif isinstance(bba, str):
+            # banks interleaved at a large fraction of the bank size (bank field inside the top row bits) or exactly at
+            # the bank size (bank field on top of the row bits): the largest alignments that still map onto the device
+            bank_bytes = row_bytes << mem["rowbits"]
+            bba = bank_bytes // {"bank": 1, "bank/2": 2, "bank/4": 4, "bank/8": 8}[bba]
         if bba and bba < word_bytes:
             bba = 0
         cs["bank_byte_alignment"] = bba
